@@ -38,14 +38,26 @@ def make_env(rng, N=None, p=None):
     return {"N": N, "p": p, "life": life, "utab": utab, "ttab": ttab, "rows": rows}
 
 
-def write_forcing(d, name, times, ulev, tlev, time_unit="s"):
-    """ulev/tlev: per frame, per level values (uniform horizontally)"""
+def land_mask(land):
+    """rho mask of the synthetic grid with the WHOLE columns `land` (x-cells) on land, None when there is none"""
+    if not land:
+        return None
+    mask = np.ones((JMAX, IMAX))
+    for i in land:
+        mask[:, int(i)] = 0.0
+    return mask
+
+
+def write_forcing(d, name, times, ulev, tlev, time_unit="s", land=None):
+    """ulev/tlev: per frame, per level values (uniform horizontally); land: x-cells whose whole column is land
+    (the file holds the unmasked uniform flow: the real code masks the u-faces next to land itself)"""
     T = len(times)
     u = np.zeros((T, NLEV, JMAX, IMAX - 1)); t = np.zeros((T, NLEV, JMAX, IMAX))
     for k in range(T):
         for lev in range(NLEV):
             u[k, lev] = ulev[k][lev]; t[k, lev] = tlev[k][lev]
-    return rf.write_roms(d / name, imax=IMAX, jmax=JMAX, N=NLEV, times=times, u=u, extra={"temp": t}, h=120.0, dx=DX, time_unit=time_unit)
+    return rf.write_roms(d / name, imax=IMAX, jmax=JMAX, N=NLEV, times=times, u=u, extra={"temp": t}, h=120.0, dx=DX, time_unit=time_unit,
+                         mask=land_mask(land))
 
 
 def config(d, env, start, stop, out, rel, forcing, numrec=0, rev=False, adv="EF"):
